@@ -1149,4 +1149,75 @@ theorem claim_preimage_injective (c c' n n' : Nat) (k k' : Bytes) (cl cl' : Clai
     rfl rfl h h'
   simpa using this
 
+/-! ## the lists the client derives from a `dkg.Result` are a partition -/
+
+theorem applyMark_range (n : Nat) (st : List Nat × List Nat) (m : Bool × Nat)
+    (h : ∀ a ∈ st.1 ++ st.2, 1 ≤ a ∧ a ≤ n) : ∀ a ∈ (applyMark n st m).1 ++ (applyMark n st m).2, 1 ≤ a ∧ a ≤ n := by
+  obtain ⟨ia, dq⟩ := st
+  unfold applyMark
+  simp only
+  split
+  · rename_i hc
+    split
+    · intro a ha
+      simp only [List.mem_append, List.mem_singleton] at ha
+      rcases ha with ha | ha | ha
+      · exact h a (by simp [ha])
+      · exact h a (by simp [ha])
+      · subst ha; exact ⟨hc.1, hc.2.1⟩
+    · intro a ha
+      simp only [List.mem_append, List.mem_singleton] at ha
+      rcases ha with (ha | ha) | ha
+      · exact h a (by simp [ha])
+      · subst ha; exact ⟨hc.1, hc.2.1⟩
+      · exact h a (by simp [ha])
+  · exact h
+
+theorem applyMarks_range (n : Nat) (marks : List (Bool × Nat)) :
+    ∀ a ∈ (applyMarks n marks).1 ++ (applyMarks n marks).2, 1 ≤ a ∧ a ≤ n := by
+  unfold applyMarks
+  suffices ∀ (st : List Nat × List Nat), (∀ a ∈ st.1 ++ st.2, 1 ≤ a ∧ a ≤ n) →
+      ∀ a ∈ (marks.foldl (applyMark n) st).1 ++ (marks.foldl (applyMark n) st).2, 1 ≤ a ∧ a ≤ n from
+    this ([], []) (by simp)
+  induction marks with
+  | nil => intro st h; simpa using h
+  | cons m ms ih => intro st h; exact ih _ (applyMark_range n st m h)
+
+/-- **The client's inputs are in the theorems' domain.** Whatever sequence of
+    `MarkMemberAsInactive` / `MarkMemberAsDisqualified` calls a DKG run made (repeated, conflicting
+    and out-of-group marks included), `result.Group.OperatingMemberIndexes()` and
+    `result.MisbehavedMembersIndexes()` — what `SignResult` / `SubmitResult` hand to the chain
+    layer — split the member indexes `1..n`; so `members_hash_matches`,
+    `assembled_passes_static`, `sig_hash_preimage_equal` and `signatures_validate` apply to them. -/
+theorem result_lists_partition (n : Nat) (marks : List (Bool × Nat)) :
+    IsPartition n (groupOperating n (applyMarks n marks)) (resultMisbehaved (applyMarks n marks)) := by
+  have hr := applyMarks_range n marks
+  generalize applyMarks n marks = st at hr
+  obtain ⟨ia, dq⟩ := st
+  simp only at hr
+  unfold IsPartition groupOperating resultMisbehaved
+  simp only
+  have hmem : ∀ j, ((ia.contains j || dq.contains j) = true) ↔ j ∈ ia ++ dq := by
+    intro j; simp
+  have hfilt : (List.range' 1 n).filter (fun j => !(ia.contains j) && !(dq.contains j)) =
+      (List.range' 1 n).filter (fun j => !(ia.contains j || dq.contains j)) := by
+    congr 1; funext j; simp [Bool.not_or]
+  rw [hfilt]
+  have hperm : (sortNat (dedup (ia ++ dq))).Perm
+      ((List.range' 1 n).filter (fun j => !!(ia.contains j || dq.contains j))) := by
+    rw [List.perm_ext_iff_of_nodup ((sortNat_perm _).nodup_iff.2 (dedup_nodup _))
+      ((strict_nodup (range'_strict 1 n)).filter _)]
+    intro a
+    rw [mem_sortNat, mem_dedup, List.mem_filter, List.mem_range'_1, Bool.not_not, hmem]
+    constructor
+    · intro ha; have := hr a ha; exact ⟨by omega, ha⟩
+    · intro ha; exact ha.2
+  exact (List.Perm.append_left _ hperm).trans
+    (List.filter_append_perm (fun j => !(ia.contains j || dq.contains j)) (List.range' 1 n))
+
+/-- non-vacuity: the demo of seeded change C40-b-w3 (inactive 9, disqualified 3 and 10) -/
+example : groupOperating 10 ([9], [3, 10]) = [1, 2, 4, 5, 6, 7, 8] := by decide
+example : applyMarks 10 [(false, 9), (true, 3), (true, 10), (false, 3), (true, 0), (false, 11), (true, 9)]
+    = ([9], [3, 10]) := by decide
+
 end KeepVerif.C40
